@@ -375,6 +375,16 @@ def derived_rule(prog, res, rule='derived'):
             res.ok(rule, 'Header::nbAnalogByFrame(n) keeps the channel count (rescales the measurements per frame)', sub.loc(),
                    'channel count computed before the store (inline) and multiplied by the new sub-frame count after it', function=sub.sig, expr='subframe-setter')
             return
+    # the measurements are rescaled first (old channel count x new sub-frame count), then the sub-frame count is stored
+    if len(store) == 1 and len(direct) == 1 and not writes:
+        rhs_ = re.sub(r'\(unsigned long\)', '', R.render(direct[0]['ch'][1]))
+        forms = ['(this.nbAnalogs() * arg0)', '(arg0 * this.nbAnalogs())'] + ['(%s * arg0)' % g_ for g_ in GETTER_FORMS] + ['(arg0 * %s)' % g_ for g_ in GETTER_FORMS]
+        sv = g.vertex_of.get(store[0]['id'])
+        wv = g.vertex_of.get(direct[0]['id'])
+        if rhs_ in forms and None not in (sv, wv) and g.dominates(wv, sv) and wv not in g.reach([sv]):
+            res.ok(rule, 'Header::nbAnalogByFrame(n) keeps the channel count (rescales the measurements per frame)', sub.loc(),
+                   'measurements := (channel count under the old sub-frame count) x n, then the sub-frame count is stored', function=sub.sig, expr='subframe-setter')
+            return
     ok = len(store) == 1 and len(reads) >= 1 and (len(writes) == 1 or len(direct) == 1)
     if ok and not writes:
         # the setter inlined:  _nbAnalogsMeasurement = saved * _nbAnalogByFrame  after the store
